@@ -285,7 +285,10 @@ class BorisMatrices(Contract):
         yield 'qQ_is_weights_times_Q', _close(sw.qQ, onp.dot(onp.asarray(sw.coll.weights, dtype=object), Q[1:, 1:]))
 
     def canary(self, st, old, result, exc):
-        yield 'canary:ST_equals_QT', _meq(result.ST, result.QT)
+        if st.M >= 2:
+            yield 'canary:ST_equals_QT', _meq(result.ST, result.QT)
+        else:
+            yield 'canary:Sx_is_zero', _meq(result.Sx, 0 * result.Sx + 1)
 
 
 
